@@ -1627,6 +1627,37 @@ def _split_through_ref(eng, st, fr, t, arg, kind, pred):
     return out
 
 
+def _as_ref(kind):
+    """Result::as_ref / Option::as_ref (and as_mut): the same variant holding a reference to the payload where it lives"""
+    def m(eng, st, fr, t, name, rname, args):
+        v = eng.resolve(st, args[0])
+        if not isinstance(v, RefV):
+            return NotImplemented
+        inner = eng.resolve(st, load(Loc(v.cell, v.path)))
+
+        def wrap(ref, ev):
+            if ev.name in ("None",):
+                return mk_option(None)
+            r = RefV(ref.cell, tuple(ref.path) + (0,), ref.mut)
+            return mk_option(r) if ev.name == "Some" else mk_ok(r) if ev.name == "Ok" else mk_err(r)
+        if isinstance(inner, EnumV) and inner.name is not None:
+            return wrap(v, inner)
+        if not isinstance(inner, (SymV, TopV)):
+            return NotImplemented
+        parts = split_result(eng, st, fr, t, inner) if kind == "result" else split_option(eng, st, fr, t, inner)
+        out = []
+        for s2, ev in parts:
+            f2 = s2.frames[-1]
+            a2 = eng.resolve(s2, eng.operand(s2, f2, t["args"][0])) if s2 is not st else v
+            if isinstance(a2, RefV):
+                store(Loc(a2.cell, a2.path), ev)
+                out.append((s2, wrap(a2, ev)))
+            else:
+                out.append((s2, s2.fresh(("as_ref-undecided",))))
+        return out
+    return m
+
+
 def m_is_ok2(eng, st, fr, t, name, rname, args):
     return _split_through_ref(eng, st, fr, t, args[0], "result", lambda n: n == "Ok")
 
@@ -2044,6 +2075,10 @@ def m_array_into_next(eng, st, fr, t, name, rname, args):
 
 
 DEFAULT_MODELS = {
+    "core::result::Result::as_ref": _as_ref("result"),
+    "core::result::Result::as_mut": _as_ref("result"),
+    "core::option::Option::as_ref": _as_ref("option"),
+    "core::option::Option::as_mut": _as_ref("option"),
     "core::iter::IntoIterator::into_iter": m_array_into_iter,
     "core::iter::Iterator::next": m_array_into_next,
     "<core::array::IntoIter<T, N> as core::iter::Iterator>::next": m_array_into_next,
